@@ -3,6 +3,7 @@
 from __future__ import annotations
 
 import copy
+import os
 import datetime as dt
 
 from .. import probes, simray
@@ -21,6 +22,13 @@ def drive(case: dict, ctx: RunContext | None = None, tolerate=()) -> RunContext:
         run_plan(ctx)
     except Exception as exc:  # noqa: BLE001
         ctx.error = exc
+        if os.environ.get("RSIM_SHOW_ABORTS"):   # diagnostic aid: what made runs abort, and where
+            import traceback
+
+            tb = traceback.extract_tb(exc.__traceback__)
+            where = " <- ".join(f"{os.path.basename(f.filename)}:{f.lineno}:{f.name}" for f in tb[-14:][::-1])
+            with open(os.environ["RSIM_SHOW_ABORTS"], "a") as fh:
+                fh.write(f"[abort] {type(exc).__name__}: {str(exc)[:200]} @ {where}\n")
     return ctx
 
 
@@ -109,3 +117,8 @@ def generic_shrinks(case):
     evs = case["config"].get("events", [])
     for i in range(len(evs)):
         yield variant(case, f"drop-event-{i}", lambda c, i=i: c["config"]["events"].pop(i))
+
+
+def over(value, limit) -> bool:
+    """``value > limit`` that is also true for a non-finite value (NaN compares false with everything)."""
+    return not (value <= limit)
